@@ -1,9 +1,11 @@
 // C09 harness: save / reset / load transparency on the real engine (ASan, injected clock).
 //
 //   case <id> <mode> K=<all|none|k1,k2,..> [H=<host flags>]
-//     host flags (what the host puts into the archive besides director.Archive; default leq):
-//       l = ArchiveObject(level)   e = ArchiveObject(every entity named by E ops)
-//       q = the event queue        E = additionally Listener::Archive of every entity
+//     host flags (what the host puts into the archive besides director.Archive; default lrq):
+//       l = ArchiveObject(level)   q = the event queue
+//       r = the entities named by E ops are archived, deleted at the reset and re-created from the
+//           archive (ReadObject), and the target list is archived
+//       e = instead: the entities survive the reset and are archived in place (ArchiveObject)
 //     mode M: threads are structured programs (the alphabet of coq/C09/Model.v); every op is
 //             printed as `m <obs>` in the canonical text of ocaml/C09_driver.ml
 //     mode F: free script text (waittill/notify, waitthread, group/level variables, entities ..):
@@ -268,7 +270,7 @@ static Layout layoutOf(const std::string& src)
 }
 
 // ------------------------------------------------------------------ one run
-struct Options { bool level = true, ents = true, queue = true, entListener = false; };
+struct Options { bool level = true, ents = false, queue = true, recreate = true; };
 
 struct Run {
     vh::Engine e;
@@ -295,12 +297,27 @@ struct Run {
         return r;
     }
 
-    void archiveAll(Archiver& arc, const std::vector<SimpleEntity*>& es)
+    // The host's part of the archive.  Protocol r (default): the host owns the entities, deletes
+    // them when the engine is reset and re-creates them from the archive (ReadObject), and archives
+    // the target list ($name -> entities).  Protocol e: the entities survive the reset and are
+    // archived in place (ArchiveObject on the live object).
+    void archiveHost(Archiver& arc, std::vector<SimpleEntity*>& es)
     {
-        if (opt.ents) for (SimpleEntity* se : es) if (se) {
-            arc.ArchiveObject(*se);
-            // host flag E: the host archives the entity's Listener part itself (SimpleEntity::Archive does not)
-            if (opt.entListener) se->Listener::Archive(arc);
+        if (opt.recreate) {
+            uint32_t n = (uint32_t)es.size();
+            arc.ArchiveUInt32(n);
+            if (arc.Loading()) {
+                es.clear();
+                for (uint32_t i = 0; i < n; ++i) {
+                    Class* c = arc.ReadObject();
+                    SimpleEntity* se = dynamic_cast<SimpleEntity*>(c);
+                    es.push_back(se);
+                    if (c) e.ctx->GetTrackedInstances().Add(c);
+                }
+            } else for (SimpleEntity* se : es) arc.ArchiveObject(*se);
+            e.ctx->GetTargetList().Archive(arc);
+        } else if (opt.ents) {
+            for (SimpleEntity* se : es) if (se) arc.ArchiveObject(*se);
         }
         if (opt.level) arc.ArchiveObject(*e.ctx->GetLevel());
         e.director().Archive(arc);
@@ -310,20 +327,21 @@ struct Run {
     std::string saveResetLoad()
     {
         std::stringstream ss(std::ios::in | std::ios::out | std::ios::binary);
-        std::string what;
+        std::vector<SimpleEntity*> es;
+        for (SimpleEntity* se : entities()) if (se) es.push_back(se);
         try {
-            { Archiver arc = Archiver::CreateWrite(ss, info()); archiveAll(arc, entities()); }
+            { Archiver arc = Archiver::CreateWrite(ss, info()); archiveHost(arc, es); }
         } catch (ArchiveErrors::Base& ex) { return "save-archive-error"; }
         catch (std::exception& ex) { return std::string("save-exception:") + esc(ex.what()); }
-        std::vector<SimpleEntity*> keep = entities();      // the host's objects survive the reset
         try {
+            if (opt.recreate) { for (SimpleEntity* se : es) delete se; es.clear(); }
             e.director().Reset();
         } catch (std::exception& ex) { return std::string("reset-exception:") + esc(ex.what()); }
         if (opt.level && e.ctx->GetLevel()->vars) { e.ctx->GetLevel()->ClearVars(); }
         const std::string bytes = ss.str();
         imemstream is(bytes.data(), bytes.size());
         try {
-            { Archiver arc = Archiver::CreateRead(is, info()); archiveAll(arc, keep); }
+            { Archiver arc = Archiver::CreateRead(is, info()); archiveHost(arc, es); }
         } catch (ArchiveErrors::Base& ex) { return "load-archive-error"; }
         catch (std::exception& ex) { return std::string("load-exception:") + esc(ex.what()); }
         return dump();
@@ -470,7 +488,7 @@ int main()
         hs >> mode;
         while (hs >> w) {
             if (w.rfind("K=", 0) == 0) kspec = w.substr(2);
-            else if (w.rfind("H=", 0) == 0) { std::string f = w.substr(2); opt.level = f.find('l') != std::string::npos; opt.ents = f.find('e') != std::string::npos; opt.queue = f.find('q') != std::string::npos; opt.entListener = f.find('E') != std::string::npos; }
+            else if (w.rfind("H=", 0) == 0) { std::string f = w.substr(2); opt.level = f.find('l') != std::string::npos; opt.ents = f.find('e') != std::string::npos; opt.queue = f.find('q') != std::string::npos; opt.recreate = f.find('r') != std::string::npos; }
         }
         const bool modeM = mode == "M";
         std::printf("case %s\n", id.c_str());
